@@ -53,6 +53,11 @@ MemberProbes ==
 
 \* shadowing: which binding does the write reach?
 D(mut, v) == Def("x", mut, "", IntL(v))
+HDecls == <<Class("E1", <<>>, <<Parent("Exception", <<>>)>>, <<>>, <<>>), Class("E2", <<>>, <<Parent("Exception", <<>>)>>, <<>>, <<>>),
+           Fun("rE1", <<>>, "Int", <<"E1", "E2">>, <<Raise("E1", <<>>)>>)>>
+\* a two-armed match / handle whose arms in S hold the statements b (the others: pass)
+MatchOn(S, b)  == Match(IntL(1), <<Arm(IntL(1), IF 1 \in S THEN b ELSE <<Pass>>), Arm(Wild, IF 2 \in S THEN b ELSE <<Pass>>)>>)
+HandleOn(S, b) == Handle(Expr(Call("rE1", <<>>)), <<HArm("E1", "e", IF 1 \in S THEN b ELSE <<Pass>>), HArm("E2", "e", IF 2 \in S THEN b ELSE <<Pass>>)>>)
 ShadowProbes ==
     UNION { { Probe("fin-shadow", <<>>, <<>>, sh[2], FALSE, Verdict(sh[3]), [form |-> sh[1], mutable |-> sh[3], write |-> w, defined |-> TRUE, recv_mutable |-> TRUE])
       : sh \in { <<"fin-then-mut", <<D(FALSE, 1), D(TRUE, 2), WriteS(w, "x")>>, TRUE>>,
@@ -63,6 +68,22 @@ ShadowProbes ==
                  <<"inner-fin-of-outer-mut", <<D(TRUE, 1), If(BoolL(TRUE), <<D(FALSE, 2), WriteS(w, "x")>>, <<>>)>>, FALSE>>,
                  <<"loop-inner-mut-of-outer-fin", <<D(FALSE, 1), For("i", Range(IntL(0), IntL(1), FALSE, Absent), <<D(TRUE, 2), WriteS(w, "x")>>)>>, TRUE>>,
                  <<"outer-fin-after-loop-inner-mut", <<D(FALSE, 1), For("i", Range(IntL(0), IntL(1), FALSE, Absent), <<D(TRUE, 2)>>), WriteS(w, "x")>>, FALSE>> } }
+      : w \in {"assign", "aug"} }
+  \cup \* the arms of a match and of a handle are scopes too: what the FIRST, the LAST or every arm defines is gone behind the construct
+    UNION { { Probe("fin-shadow", IF sh[4] THEN HDecls ELSE <<>>, <<>>, sh[2], FALSE, Verdict(sh[3]), [form |-> sh[1], mutable |-> sh[3], write |-> w, defined |-> TRUE, recv_mutable |-> TRUE])
+      : sh \in UNION { { <<"match-arm-" \o a[1] \o "-mut-then-outer-fin", <<D(FALSE, 1), MatchOn(a[2], <<D(TRUE, 2), WriteS(w, "x")>>), WriteS(w, "x")>>, FALSE, FALSE>>,
+                         <<"match-arm-" \o a[1] \o "-mut-of-outer-fin",   <<D(FALSE, 1), MatchOn(a[2], <<D(TRUE, 2), WriteS(w, "x")>>)>>, TRUE, FALSE>>,
+                         <<"outer-mut-after-match-arm-" \o a[1] \o "-fin", <<D(TRUE, 1), MatchOn(a[2], <<D(FALSE, 2)>>), WriteS(w, "x")>>, TRUE, FALSE>>,
+                         <<"match-arm-" \o a[1] \o "-fin-of-outer-mut",   <<D(TRUE, 1), MatchOn(a[2], <<D(FALSE, 2), WriteS(w, "x")>>)>>, FALSE, FALSE>>,
+                         <<"handle-arm-" \o a[1] \o "-mut-then-outer-fin", <<D(FALSE, 1), HandleOn(a[2], <<D(TRUE, 2), WriteS(w, "x")>>), WriteS(w, "x")>>, FALSE, TRUE>>,
+                         <<"handle-arm-" \o a[1] \o "-mut-of-outer-fin",   <<D(FALSE, 1), HandleOn(a[2], <<D(TRUE, 2), WriteS(w, "x")>>)>>, TRUE, TRUE>>,
+                         <<"outer-mut-after-handle-arm-" \o a[1] \o "-fin", <<D(TRUE, 1), HandleOn(a[2], <<D(FALSE, 2)>>), WriteS(w, "x")>>, TRUE, TRUE>>,
+                         <<"handle-binder-then-outer-fin", <<D(FALSE, 1), Handle(Expr(Call("rE1", <<>>)), <<HArm("E1", "x", <<Pass>>)>>), WriteS(w, "x")>>, FALSE, TRUE>> }
+                       : a \in {<<"first", {1}>>, <<"last", {2}>>, <<"every", {1, 2}>>} } }
+      : w \in {"assign", "aug"} }
+  \cup \* ... and a name that only an arm defines is not defined behind the construct
+    UNION { { Probe("fin-undefined", IF sh[2] THEN HDecls ELSE <<>>, <<>>, sh[1], FALSE, Verdict(FALSE), [form |-> "undefined-after-arm", mutable |-> TRUE, write |-> w, defined |-> FALSE, recv_mutable |-> TRUE])
+      : sh \in UNION { { <<<<MatchOn(a, <<D(TRUE, 2)>>), WriteS(w, "x")>>, FALSE>>, <<<<HandleOn(a, <<D(TRUE, 2)>>), WriteS(w, "x")>>, TRUE>> } : a \in {{1}, {2}, {1, 2}} } }
       : w \in {"assign", "aug"} }
 
 Probes == CASE Part = "var" -> VarProbes [] Part = "member" -> MemberProbes [] Part = "shadow" -> ShadowProbes
